@@ -919,6 +919,174 @@ def _describe_methods() -> List[str]:
     L += _describe("FileSystem", find_method(class_def(parse(FS), "FileSystem"), "describe_state"))
     return L
 
+
+# ---------------------------------------------------------------------------------------------- request handlers and validators
+# The three handler closures of FileSystem._init_request_manager and the five validators, onto `State × Out` / `Bool`:
+#     request[i]                                  r0, r1 : Name;  r2 : Bool (its truthiness — the wire carries it as such)
+#     request[0] or '<lit>'                       (if r0 != "" then r0 else "<lit>")
+#     if <c>: return RequestResponse.from_bool(False)                   if c then (s, .failure) else …
+#     c: not request[2] | <c> and <c> | self.get_file(folder_name=A, file_name=B)  [truthiness = found]
+#        | not X (X an Optional local) | self.access_file(folder_name=A, file_name=B) [the TRANSLATED method: state and answer]
+#     X = self.get_file(folder_name=A, file_name=B)                     let X := fsGetFile s A B false
+#     X = self.create_file(folder_name=A, file_name=B, force=C)         match fsCreateFile s B A C with | (s, none) => (s, .raised) | (s, some X) => …
+#     X = self.create_folder(folder_name=A)                             let r := fsCreateFolder s A; s := r.1; X := r.2
+#     `if not X: return …` on a value that cannot be None (an object)   dead, dropped
+#     return RequestResponse(status='success', data={…})                (s, .success)        (the data only reads attributes)
+# validators: `if len(request) < k: return False` is recorded as the arity k (the model's operations always carry their options), then
+#     return <lookup> is not None  |  X = <lookup>; return X is not None and (not X.deleted)
+def _req(e: ast.AST) -> str:
+    if isinstance(e, ast.Subscript) and _u(e.value) == "request" and isinstance(e.slice, ast.Constant) and e.slice.value in (0, 1, 2):
+        return f"r{e.slice.value}"
+    if (isinstance(e, ast.BoolOp) and isinstance(e.op, ast.Or) and len(e.values) == 2 and isinstance(e.values[1], ast.Constant)
+            and isinstance(e.values[1].value, str) and e.values[1].value):
+        a = _req(e.values[0])
+        return f'(if {a} != "" then {a} else {json.dumps(e.values[1].value)})'
+    raise Unsupported("request option " + _u(e))
+
+
+def _kwargs(c: ast.Call, names) -> List[str]:
+    if c.args or [k.arg for k in c.keywords] != list(names):
+        raise Unsupported("handler call " + _u(c))
+    return [_req(k.value) for k in c.keywords]
+
+
+def _hcond(e: ast.AST, env: dict):
+    """-> (lean Bool expression, state-updating call or None)"""
+    if isinstance(e, ast.BoolOp) and isinstance(e.op, ast.And):
+        parts = [_hcond(v, env) for v in e.values]
+        if any(p[1] for p in parts):
+            raise Unsupported("state-changing call inside `and`")
+        return "(" + " && ".join(p[0] for p in parts) + ")", None
+    if isinstance(e, ast.UnaryOp) and isinstance(e.op, ast.Not):
+        if isinstance(e.operand, ast.Name) and env.get(e.operand.id) == "optfile":
+            return f"{e.operand.id}.isNone", None
+        if isinstance(e.operand, ast.Name) and env.get(e.operand.id) in ("file", "folder"):
+            return "false", None            # an object is truthy
+        if isinstance(e.operand, ast.Subscript):
+            r = _req(e.operand)
+            if r != "r2":
+                raise Unsupported("truthiness of a name option " + _u(e))
+            return "!r2", None
+        raise Unsupported("handler condition " + _u(e))
+    if isinstance(e, ast.Call) and _u(e.func) == "self.get_file":
+        a, b = _kwargs(e, ("folder_name", "file_name"))
+        return f"(fsGetFile s {a} {b} false).isSome", None
+    if isinstance(e, ast.Call) and _u(e.func) == "self.access_file":
+        a, b = _kwargs(e, ("folder_name", "file_name"))
+        return f"(fsAccessFile s {a} {b}).2", f"(fsAccessFile s {a} {b}).1"
+    raise Unsupported("handler condition " + _u(e))
+
+
+def _is_failure(st: ast.stmt) -> bool:
+    return isinstance(st, ast.Return) and _u(st.value) == "RequestResponse.from_bool(False)"
+
+
+def _hstmts(body: List[ast.stmt], env: dict, ind: int) -> str:
+    pad = "  " * ind
+    body = [st for st in body if not _rskip(st)]
+    if not body:
+        raise Unsupported("handler falls off the end")
+    st, rest = body[0], body[1:]
+    if _is_failure(st):
+        return pad + "(s, .failure)"
+    if isinstance(st, ast.Return):
+        c = st.value
+        if (isinstance(c, ast.Call) and _u(c.func) == "RequestResponse" and not c.args and [k.arg for k in c.keywords] == ["status", "data"]
+                and _u(c.keywords[0].value) == "'success'" and not any(isinstance(n, ast.Call) for n in ast.walk(c.keywords[1].value))):
+            return pad + "(s, .success)"
+        raise Unsupported("handler return " + _u(st)[:70])
+    if isinstance(st, ast.If) and not st.orelse and len([b for b in st.body if not _rskip(b)]) == 1:
+        inner = [b for b in st.body if not _rskip(b)][0]
+        cond, upd = _hcond(st.test, env)
+        if cond == "false":
+            return _hstmts(rest, env, ind)
+        if upd is None:
+            return pad + f"if {cond} then\n" + _hstmts([inner], env, ind + 1) + "\n" + pad + "else\n" + _hstmts(rest, env, ind + 1)
+        return (pad + f"let b := {cond}\n" + pad + f"let s := {upd}\n" + pad + "if b then\n" + _hstmts([inner], env, ind + 1) + "\n" + pad + "else\n"
+                + _hstmts(rest, env, ind + 1))
+    if isinstance(st, ast.Assign) and len(st.targets) == 1 and isinstance(st.targets[0], ast.Name) and isinstance(st.value, ast.Call):
+        x, c = st.targets[0].id, st.value
+        f = _u(c.func)
+        if f == "self.get_file":
+            a, b = _kwargs(c, ("folder_name", "file_name"))
+            return pad + f"let {x} := fsGetFile s {a} {b} false\n" + _hstmts(rest, dict(env, **{x: "optfile"}), ind)
+        if f == "self.create_file":
+            a, b, fc = _kwargs(c, ("folder_name", "file_name", "force"))
+            if fc != "r2":
+                raise Unsupported("force option " + _u(c))
+            return (pad + f"match fsCreateFile s {b} {a} {fc} with\n" + pad + "| (s, none) => (s, .raised)\n" + pad + f"| (s, some {x}) =>\n"
+                    + _hstmts(rest, dict(env, **{x: "file"}), ind + 1))
+        if f == "self.create_folder":
+            (a,) = _kwargs(c, ("folder_name",))
+            return (pad + f"let r := fsCreateFolder s {a}\n" + pad + "let s := r.1\n" + pad + f"let {x} := r.2\n"
+                    + _hstmts(rest, dict(env, **{x: "folder"}), ind))
+    raise Unsupported("handler statement " + _u(st)[:70])
+
+
+HANDLERS = [("_create_file_action", "hCreateFileAction", "(r0 r1 : Name) (r2 : Bool)"), ("_create_folder_action", "hCreateFolderAction", "(r0 : Name)"),
+            ("_access_file_action", "hAccessFileAction", "(r0 r1 : Name)")]
+VALIDATORS = [("FS", "FileSystem", "_FolderExistsValidator", "vFolderExists", "s", "(r0 : Name)"),
+              ("FS", "FileSystem", "_FolderNotDeletedValidator", "vFolderNotDeleted", "s", "(r0 : Name)"),
+              ("FS", "FileSystem", "_FileExistsValidator", "vFileExists", "s", "(r0 r1 : Name)"),
+              ("FOLDER", "Folder", "_FileExistsValidator", "vFolderFileExists", "g", "(r0 : Name)"),
+              ("FOLDER", "Folder", "_FileNotDeletedValidator", "vFolderFileNotDeleted", "g", "(r0 : Name)")]
+
+
+def _vlookup(e: ast.AST, v: str) -> str:
+    if not isinstance(e, ast.Call):
+        raise Unsupported("validator lookup " + _u(e))
+    f = _u(e.func)
+    kws = {k.arg: k.value for k in e.keywords}
+    if e.args:
+        raise Unsupported("validator lookup " + _u(e))
+    incl = _incl(kws.pop("include_deleted", None), {})
+    if v == "s" and f == "self.file_system.get_folder" and set(kws) == {"folder_name"}:
+        return f"getFolder s {_req(kws['folder_name'])} {incl}"
+    if v == "s" and f == "self.file_system.get_file" and set(kws) == {"folder_name", "file_name"}:
+        return f"fsGetFile s {_req(kws['folder_name'])} {_req(kws['file_name'])} {incl}"
+    if v == "g" and f == "self.folder.get_file" and set(kws) == {"file_name"}:
+        return f"g.getFile {_req(kws['file_name'])} {incl}"
+    raise Unsupported("validator lookup " + _u(e))
+
+
+def _handler_methods() -> List[str]:
+    from harness.extract.filesystem import FS
+    rels = {"FS": FS, "FOLDER": FOLDER}
+    irm = find_method(class_def(parse(FS), "FileSystem"), "_init_request_manager")
+    L: List[str] = []
+    for py, nm, binders in HANDLERS:
+        fns = [n for n in irm.body if isinstance(n, ast.FunctionDef) and n.name == py]
+        if len(fns) != 1 or [a.arg for a in fns[0].args.args] != ["request", "context"]:
+            raise Unsupported("handler " + py)
+        L += [f"/-- the request handler `{py}`, translated statement by statement -/", f"def {nm} (s : State) {binders} : State × Out :=",
+              _hstmts(list(fns[0].body), {}, 1), ""]
+    arities = []
+    for relname, cn, vn, nm, v, binders in VALIDATORS:
+        cls = [n for n in class_def(parse(rels[relname]), cn).body if isinstance(n, ast.ClassDef) and n.name == vn]
+        if len(cls) != 1:
+            raise Unsupported("validator " + vn)
+        fn = find_method(cls[0], "__call__")
+        body = [st for st in fn.body if not _rskip(st)]
+        k = 0
+        if body and isinstance(body[0], ast.If) and _u(body[0].test).startswith("len(request) < ") and len(body[0].body) == 1 and _u(body[0].body[0]) == "return False":
+            k = int(_u(body[0].test).split("<")[1])
+            body = body[1:]
+        arities.append((f"{cn}.{vn}", k))
+        V = "(s : State)" if v == "s" else "(g : Folder)"
+        if len(body) == 1 and isinstance(body[0], ast.Return) and isinstance(body[0].value, ast.Compare) and isinstance(body[0].value.ops[0], ast.IsNot) \
+                and _u(body[0].value.comparators[0]) == "None":
+            expr = f"({_vlookup(body[0].value.left, v)}).isSome"
+        elif (len(body) == 2 and isinstance(body[0], ast.Assign) and isinstance(body[0].targets[0], ast.Name) and isinstance(body[1], ast.Return)
+              and _u(body[1].value) == f"{body[0].targets[0].id} is not None and (not {body[0].targets[0].id}.deleted)"):
+            x = body[0].targets[0].id
+            expr = f"match {_vlookup(body[0].value, v)} with\n  | some {x} => !{x}.deleted\n  | none => false"
+        else:
+            raise Unsupported(f"validator {vn}: " + " ; ".join(_u(b) for b in body)[:90])
+        L += [f"/-- the validator `{cn}.{vn}`, translated -/", f"def {nm} {V} {binders} : Bool :=", "  " + expr, ""]
+    L += ["/-- the number of options each validator insists on before it looks anything up -/",
+          "def validatorArity : List (String × Nat) := [" + ", ".join(f"({json.dumps(a)}, {k})" for a, k in arities) + "]", ""]
+    return L
+
 LOOKUP_METHODS = [  # (class, method, lean name, kind, result, parameters (python name -> (lean binder, env kind)))
     ("Folder", "get_file", "folderGetFile", "folder", "optfile", [("file_name", "Name", None), ("include_deleted", "Bool", "bool")]),
     ("Folder", "remove_file", "folderRemoveFile", "folder", "unit", [("file", "File", "file")]),
@@ -1002,6 +1170,7 @@ def emit() -> str:
               f"def {nm} {V} {binders} : {RESULT_TYPE[(kind, res)]} :=", _lstmts(list(fn.body), kind, res, env, 1), ""]
     R += _tick_methods()
     R += _describe_methods()
+    R += _handler_methods()
     L = ["import PrimaiteModel.Model.FileSystemHealth", "namespace Primaite.Gen.FileSystemMethods", "open Primaite.FileSystem", "",
          "/-- `Folder.restore_file`, translated statement by statement -/",
          "def folderRestoreFile (g : Folder) (file_name : Name) : Folder × Bool :=",
